@@ -808,7 +808,9 @@ B.SPEC_FUNCS['TEXT_FILTER_OK'] = lambda it, args, kwargs: it.ctx.ghost['gc_expec
 RESET = ['forall(lambda s_k: s_k not in self._out)',
          'forall(lambda s_k: s_k not in self._oids)', 'len(self._complianceOids) == 0',
          'self._moduleIdentityOid is None', 'self._enterpriseOid is None', 'self._moduleRevision is None',
-         'forall(lambda s_k: s_k not in self._rows)', 'forall(lambda s_k: s_k not in self._cols)']
+         'forall(lambda s_k: s_k not in self._rows)', 'forall(lambda s_k: s_k not in self._cols)',
+         # C12: the numbering of fake index columns starts afresh for every module
+         'self.fakeidx == 1000']
 ORDER = 'self.symbolTable[self.moduleName[0]]["_symtable_order"]'
 
 CONTRACTS += [
